@@ -1088,6 +1088,15 @@ class Engine:
             v = V(None, MapTy(ANY, ANY))
             v.empty_lit = True  # type: ignore[attr-defined]
             return v
+        if all(isinstance(k, ast.Constant) and isinstance(k.value, str) for k in n.keys):
+            # a dict display whose constant keys are exactly the fields of a declared value struct (a TypedDict / row shape the sidecar
+            # names) is that struct: {"case_id": c, "activity": a, ...}
+            keyset = {k.value for k in n.keys}  # type: ignore[union-attr]
+            cands = [t for t in self.tenv.aliases.values() if isinstance(t, StructTy) and set(t.fields) == keyset and getattr(t, "dict_display", False)]
+            if len(cands) == 1 and len(keyset) == len(n.keys):
+                sty = cands[0]
+                kws = {k.value: self.coerce(self.expr(v, st), sty.fields[k.value]) for k, v in zip(n.keys, n.values)}  # type: ignore[union-attr]
+                return V(self.pre.struct_mk(sty, [kws[f].t for f in sty.fields]), sty)
         ks = [self.expr(k, st) for k in n.keys]  # type: ignore[arg-type]
         vs = [self.expr(v, st) for v in n.values]
         # flow-sensitive narrowing: an Optional value that the path condition shows to be present is stored as the plain value
